@@ -289,7 +289,7 @@ func (u *Universe) structSort(name string, st *types.Struct, key string) *Sort {
 		if fs == nil {
 			continue
 		}
-		s.Fields = append(s.Fields, &FieldInfo{Name: f.Name(), Accessor: name + "_" + f.Name(), Sort: fs})
+		s.Fields = append(s.Fields, &FieldInfo{Name: f.Name(), Accessor: name + "_" + f.Name(), Sort: fs, GoType: f.Type()})
 	}
 	var fl []string
 	for _, f := range s.Fields {
